@@ -3,6 +3,7 @@ package main
 import (
 	"fmt"
 	"math"
+	"os"
 	"strings"
 
 	"gonum.org/v1/gonum/internal/verif/vlib"
@@ -98,6 +99,7 @@ func gsvdExpected(m, p, n, k, l int, a, b M, alpha, beta []float64) (zeroR, d1, 
 }
 
 func runDggsvd3(t *vlib.T, m, p, n int, f gsvdFam, ldx int) {
+	f0 := nFindings
 	a, b := f.gen(m, p, n)
 	na, nb := fro(a), fro(b)
 	dim := fmax(m, p, n)
@@ -274,12 +276,19 @@ func runDggsvd3(t *vlib.T, m, p, n int, f gsvdFam, ldx int) {
 	}
 	t.Outcome(outcome)
 	if t.Failed() {
-		gsvdAttribute(t, a, b)
+		gsvdAttribute(t, a, b, f0)
 	}
 }
 
 // gsvdAttribute attaches the inputs of a failed GSVD case.
-func gsvdAttribute(t *vlib.T, a, b M) {
+func gsvdAttribute(t *vlib.T, a, b M, findingsBefore int) {
+	if nFindings == findingsBefore {
+		t.Count("gsvd_failed_cases_without_finding", 1)
+		if f, err := os.OpenFile("/tmp/c03/unattr.txt", os.O_APPEND|os.O_CREATE|os.O_WRONLY, 0o644); err == nil {
+			fmt.Fprintf(f, "%s %s\n", t.Key, fmt.Sprint(a.a, b.a))
+			f.Close()
+		}
+	}
 	if a.r*a.c+b.r*b.c <= 64 {
 		t.Detail(map[string]any{"a": fmt.Sprint(a.a), "b": fmt.Sprint(b.a)})
 		t.Failf("inputs: A(%dx%d)=%v B(%dx%d)=%v", a.r, a.c, a.a, b.r, b.c, b.a)
@@ -311,6 +320,7 @@ func genDggsvp3(g *vlib.G) {
 }
 
 func runDggsvp3(t *vlib.T, m, p, n int, f gsvdFam, lw string) {
+	f0 := nFindings
 	a, b := f.gen(m, p, n)
 	na, nb := fro(a), fro(b)
 	dim := fmax(m, p, n)
@@ -383,7 +393,7 @@ func runDggsvp3(t *vlib.T, m, p, n int, f gsvdFam, lw string) {
 	}
 	t.Outcome(fmt.Sprintf("m-k-l>=0:%v k>0:%v l>0:%v", m-k-l >= 0, k > 0, l > 0))
 	if t.Failed() {
-		gsvdAttribute(t, a, b)
+		gsvdAttribute(t, a, b, f0)
 	}
 }
 
@@ -558,7 +568,10 @@ func numRank(a M) (rank int, clear bool) {
 // checkGsvdRanks: l is the numerical rank of B and k+l that of [A; B] (documented).
 func checkGsvdRanks(t *vlib.T, a, b M, k, l int, ctx string) {
 	if rb, clear := numRank(b); clear && l != rb {
-		t.Failf("l=%d but B has rank %d [%s]", l, rb, ctx)
+		// The one way this was seen to happen: Dggsvp3 hands Dgeqp3 a pivot vector of
+		// zeros ("pinned" in the Go interface, "free" in Fortran), so B is never pivoted
+		// (finding dggsvp3-no-pivoting, NOTES.md).
+		finding(t, "dggsvp3-no-pivoting", "l=%d but B has rank %d [%s]", l, rb, ctx)
 	}
 	st := newM(a.r+b.r, a.c)
 	copy(st.a, a.a)
@@ -574,6 +587,6 @@ func checkGsvdRanks(t *vlib.T, a, b M, k, l int, ctx string) {
 		}
 	}
 	if rs, clear := numRank(st); clear && k+l != rs {
-		t.Failf("k+l=%d but [A;B] has rank %d [%s]", k+l, rs, ctx)
+		finding(t, "dggsvp3-no-pivoting", "k+l=%d but [A;B] has rank %d [%s]", k+l, rs, ctx)
 	}
 }
